@@ -6,6 +6,7 @@
         h := basis + 31 * seed   (mod 2^w)          for every unit t:  h := (h xor t) * prime  (mod 2^w)
    prime64 = 2^40 + 435,  prime32 = 2^24 + 403: a byte shift plus a small multiplication.              *)
 EXTENDS Integers, Sequences, Bitwise
+LOCAL INSTANCE SequencesExt          \* FoldLeft (iterative): long keys without deep recursion
 
 RECURSIVE AddC(_, _, _, _, _)
 AddC(a, b, i, c, acc) == IF i > Len(a) THEN acc
@@ -31,10 +32,8 @@ Basis32 == <<197, 157, 28, 129>>                              \* 0x811C9DC5
 MulPrime64(a) == AddLimbs(Shl(a, 5), MulSmall(a, 435))       \* 0x100000001B3
 MulPrime32(a) == AddLimbs(Shl(a, 3), MulSmall(a, 403))       \* 0x01000193
 
-RECURSIVE Loop64(_, _, _)
-Loop64(h, key, i) == IF i > Len(key) THEN h ELSE Loop64(MulPrime64(XorUnit(h, key[i])), key, i + 1)
-RECURSIVE Loop32(_, _, _)
-Loop32(h, key, i) == IF i > Len(key) THEN h ELSE Loop32(MulPrime32(XorUnit(h, key[i])), key, i + 1)
+Loop64(h, key, i) == FoldLeft(LAMBDA acc, t : MulPrime64(XorUnit(acc, t)), h, key)
+Loop32(h, key, i) == FoldLeft(LAMBDA acc, t : MulPrime32(XorUnit(acc, t)), h, key)
 
 (* seed given as limbs (8 resp. 4, i.e. already reduced mod 2^w) *)
 Fnv64(key, seed8) == Loop64(AddLimbs(Basis64, MulSmall(seed8, 31)), key, 1)
